@@ -148,6 +148,12 @@ def cli_case(rng):
                 l0 = Line("pred", "P.C09.rcg", ["f", "", "", "", ""], note="`treetools grammar %s %s` differs from the API pipeline" % (gtype, " ".join(mkv)))
                 l0.expect = "command-line-grammar-must-equal-api-grammar"
                 lines.append(l0)
+            # ... and the model of the whole command (TT.runGrammarFrom + writer) gives the same files
+            mo_enc = "-"
+            if gtype != "treebank" and mkv:
+                mo_enc = "%d,%d,%s" % (mo['v'], mo['h'], "t" if 'nofanout' in mo else "f")
+            lines.append(Line("corr", "grammar_cli", ["-", gtype, mo_enc, "rcg", "f", proto.enc_s(text)],
+                              gram.enc_lines(gram.file_lines(sc.path("g1.rcg"))) + " # " + gram.enc_lines(gram.file_lines(sc.path("g1.lex")))))
         ok1 = rc == 0
         rc2, _, err2 = cli.run_cli(["grammar", sc.path("g1"), sc.path("g2"), "treebank", "--src-format", "rcg",
                                     "--dest-format", "rcg"])
